@@ -95,6 +95,10 @@ def call(op, objs, args, entry="method"):
 
     if op in ("from_blocks", "construct", "from_fill_fn", "from_dense"):
         return (construct(op, objs, a),)
+    if op == "observe":
+        from .observe import observe
+
+        return (observe(a["what"], objs, a),)
     if op == "copy":
         return (x.copy(),)
     if op == "transpose":
